@@ -107,6 +107,10 @@ def handleWrap (a mn mx : Rat) (impl : List String) : Verdict :=
       let r := mn + specRem (a - mn) m
       let topByRounding := mx - r ≤ ulpTol || (0 < mf && mf - specRem xf mf ≤ ulpTol)
       let v := if mx ≤ iw then v.addTag "returned-max" else v
+      -- strictly ABOVE max (one ulp, through the rounding of `max − min` and of the final sum) is outside even
+      -- the closed interval the property allows: its own key (a recorded finding of the unchanged code)
+      let v := v.withSpec (mx < iw && iw ≤ mx + eps) "wrap-above-max"
+        s!"wrap({ratApprox a}; {ratApprox mn}, {ratApprox mx}) = {ratApprox iw} is ABOVE max by {ratApprox (iw - mx)}"
       let v := v.withSpec (mx ≤ iw && iw ≤ mx + eps && !topByRounding) "wrap-upper-bound-returned"
         s!"wrap({ratApprox a}; {ratApprox mn}, {ratApprox mx}) returned the excluded upper bound {ratApprox iw}; the representative in [min, max) is {ratApprox r}, {ratApprox (mx - r)} below max"
       let tolq := tol / m
